@@ -18,8 +18,12 @@ pub const FN_NAMES: [&str; 5] = ["f", "g", "h", "k", "n"];
 /// builtin names that a context may shadow with a user function (user functions win)
 pub const SHADOW_NAMES: [&str; 3] = ["len", "str::from", "math::abs"];
 pub const VAR_NAMES: [&str; 3] = ["a", "b", "c"];
+/// further variable names used now and then (case variants, longer names)
+pub const EXTRA_VAR_NAMES: [&str; 5] = ["A", "B", "C", "ab", "a_1"];
 pub const UNBOUND_NAME: &str = "zz";
 pub const UNKNOWN_FN: &str = "nofn";
+/// argument the harness uses when it probes functions (the stateful sentinel only reads on it)
+pub const PROBE_ARG: i64 = 41;
 
 /// Deterministic, history-free result of user function `name` applied to `arg`.
 pub fn sentinel(name: &str, arg: &V) -> V {
@@ -183,6 +187,52 @@ pub fn recording_function(
             }
         }
         Ok(sentinel(behaviour, arg))
+    })
+}
+
+/// State of a stateful user function, copied (not shared) when the closure is cloned - which is
+/// what cloning a `Function`, and hence a context, must do.
+pub struct CloneByValueCounter(pub std::sync::atomic::AtomicI64);
+
+impl Clone for CloneByValueCounter {
+    fn clone(&self) -> Self {
+        CloneByValueCounter(std::sync::atomic::AtomicI64::new(
+            self.0.load(std::sync::atomic::Ordering::SeqCst),
+        ))
+    }
+}
+
+impl CloneByValueCounter {
+    fn peek(&self) -> i64 {
+        self.0.load(std::sync::atomic::Ordering::SeqCst)
+    }
+    fn bump(&self) -> i64 {
+        self.0.fetch_add(1, std::sync::atomic::Ordering::SeqCst)
+    }
+}
+
+/// The stateful sentinel `c`: returns its call count and advances it (a call with the probe
+/// argument only reads). Records and fails like the other user functions when a recorder is given.
+pub fn counter_function(name: String, rec: Option<Rec>) -> Function<DefaultNumericTypes> {
+    let state = CloneByValueCounter(std::sync::atomic::AtomicI64::new(0));
+    Function::new(move |arg: &V| {
+        if let Some(rec) = &rec {
+            let mut r = rec.lock().unwrap();
+            if r.enabled && r.closures_record {
+                if let Some(idx) =
+                    r.record(Ev::Call(name.clone(), cv(arg)), FaultKind::CallError)
+                {
+                    return Err(injected_error(idx));
+                }
+            }
+        }
+        // (method calls, so that the closure captures the whole struct and clones it by value)
+        let n = if *arg == Value::Int(PROBE_ARG) {
+            state.peek()
+        } else {
+            state.bump()
+        };
+        Ok(Value::Int(n))
     })
 }
 
@@ -382,7 +432,7 @@ pub fn snapshot_vars(ctx: &HashMapContext<DefaultNumericTypes>) -> Vec<(String, 
 }
 
 pub fn snapshot_fns(ctx: &HashMapContext<DefaultNumericTypes>) -> Vec<String> {
-    let probe = Value::Int(41);
+    let probe = Value::Int(PROBE_ARG);
     let mut out = Vec::new();
     // builtin names are probed too: `call_function` of a context never resolves builtins
     for n in FN_NAMES
